@@ -57,6 +57,29 @@ def job(name, s, bound, want, **kw):
     return j
 
 
+def history_scns(kinds, seed, cfgs=None):
+    """Histories: every ordered pair (and a few triples) of transfer shapes run one after the other on
+    ONE manager (use_threads=False), all per-transfer oracles applied to each of them: whatever an
+    earlier transfer leaves behind in the manager, its config or the library must not change a
+    later one (differential against the same shape run alone, which the sweeps cover)."""
+    shapes = {
+        'upload': [T_up('path', 5), T_up('path', 3), T_up('seekable', 7, start=2), T_up('nonseekable', 6), T_up('nonseekable', 0),
+                   T_up('path', 9, subs=[{}, {}])],
+        'download': [T_dl('path', 'o5'), T_dl('path', 'o3'), T_dl('nonseekable', 'o7'), T_dl('seekable', 'o6'), T_dl('path', 'o0'),
+                     T_dl('nonseekable', 'o2', subs=[{'provide_size': True}])],
+        'copy': [T_cp('o5'), T_cp('o3'), T_cp('o8')],
+        'delete': [T_del('o4')],
+    }
+    pool = [t for k in kinds for t in shapes[k]]
+    out = []
+    for c in (cfgs or [cfg(), cfg(multipart_threshold=3, multipart_chunksize=3, io_chunksize=1)]):
+        for a, b in itertools.product(pool, pool):
+            sc = scn([copy.deepcopy(a), copy.deepcopy(b)], dict(c), seed=seed, script='fresh',
+                     adjuster={'min_size': 1, 'max_size': 1000, 'max_parts': 3})
+            out.append(inline(sc))
+    return out
+
+
 # ---------------------------------------------------------------------------
 # transfer catalogue used by the schedule-based properties
 # ---------------------------------------------------------------------------
@@ -138,6 +161,8 @@ def jobs_C01(tier, seed):
                        T_cp('o7', extra={'ChecksumAlgorithm': algo})):
                 scns.append(inline(scn([tr], seed=seed, rcc=rcc)))
     jobs.append({'name': 'part checksums', 'scns': scns, 'bound': 0, 'want': want})
+    jobs.append({'name': 'histories of two transfers on one manager', 'scns': history_scns(('upload', 'copy', 'delete'), seed),
+                 'bound': 0, 'want': want})
     # (2) body protocol: client-level retries cutting the body anywhere, short reads
     for rcc in ('when_required', 'when_supported', 'when_supported/http'):
         for src, size in (('path', 5), ('seekable', 5), ('nonseekable', 5), ('path', 3), ('nonseekable', 3)):
@@ -179,6 +204,8 @@ def jobs_C02(tier, seed, want='C02', dsts=('path', 'seekable', 'nonseekable', 's
                 sc['objects'] = {f'k{s_}': s_}
                 scns.append(inline(sc))
             jobs.append({'name': f'sweep download {dst} pattern={pat}', 'scns': scns, 'bound': 0, 'want': want})
+    jobs.append({'name': 'histories of two transfers on one manager', 'scns': history_scns(('download', 'upload'), seed),
+                 'bound': 0, 'want': want})
     # stream faults: one / two retryable faults at every read, short reads chosen independently per attempt
     for dst in dsts:
         for key, c_, io in (('o5', 2, 2), ('o5', 3, 2), ('o3', 2, 2), ('o6', 3, 3), ('o7', 4, 3), ('o3', 4, 1)):
@@ -504,6 +531,8 @@ def jobs_C09(tier, seed):
             sc['objects'] = {f'k{s_}': s_}
             scns.append(inline(sc))
     jobs.append({'name': 'sweep sizes', 'scns': scns, 'bound': 0, 'want': want})
+    jobs.append({'name': 'histories of two transfers on one manager', 'scns': history_scns(('upload', 'download', 'copy'), seed),
+                 'bound': 0, 'want': want})
     for name in ('up-mp-nonseekable', 'dl-ranged-path', 'copy-mp'):
         s = scn(copy.deepcopy(base_transfers()[name]), cfg(max_request_concurrency=2), seed=seed,
                 faults={'sites': ['body:retry', 'stream:retryable']})
